@@ -9,9 +9,9 @@ import anyio
 
 from ..explore import E1Check
 
-ACTIONS = ("cancel", "none", "sync", "async", "sync-raise", "async-raise", "sync-base", "sync-aw", "obj", "partial", "method")
+ACTIONS = ("cancel", "none", "sync", "async", "sync-raise", "async-raise", "sync-base", "sync-aw", "obj", "partial", "method", "partial-obj")
 # obj / partial / method: the "given callable" need not be a function - an instance with __call__, a functools.partial, a bound method
-BODIES = ("gate-end", "stop-event", "shielded", "crash", "forever")
+BODIES = ("gate-end", "stop-event", "shielded", "crash", "forever", "crash0", "crash-oc")  # crash-oc: raises when it is cancelled (no own teardown); crash0: crashes, and its own context has no asynchronous teardown
 
 
 class HB(BaseException):
@@ -28,7 +28,9 @@ class Res:
 
 
 def valid(action: str, body: str) -> bool:
-    if body == "crash":
+    if body == "crash-oc":
+        return action == "cancel"
+    if body in ("crash", "crash0"):
         return action in ("cancel", "none")
     if action == "cancel":
         return body in ("gate-end", "shielded", "forever", "stop-event")
@@ -36,7 +38,7 @@ def valid(action: str, body: str) -> bool:
         return body == "gate-end"
     if action in ("sync", "async"):
         return body in ("stop-event", "gate-end")  # gate-end: the task may have ended by itself before the teardown; the callable is still called
-    if action in ("sync-aw", "obj", "partial", "method"):
+    if action in ("sync-aw", "obj", "partial", "method", "partial-obj"):
         return body == "stop-event"
     # raising callables fall back to cancellation
     return body in ("stop-event", "shielded")
@@ -85,8 +87,8 @@ class C08(E1Check):
                         continue
                     if n == maxn and tier == "quick" and ns == 2 and seq[0].startswith("S") and seq[-1].startswith("S") and len({x for x in seq if x.startswith("S")}) == 2:
                         continue
-                    if n == 4 and ns == 2:
-                        a, b = [x for x in seq if x.startswith("S")]
+                    if n == 4 and len([x for x in seq if x.startswith("S:")]) == 2:
+                        a, b = [x for x in seq if x.startswith("S:")]
                         if a.split(":")[1] not in ("cancel", "sync") or b.split(":")[1] not in ("cancel", "async-raise"):
                             continue
                     progs.append({"owner": owner, "seq": list(seq)})
@@ -127,7 +129,8 @@ class C08(E1Check):
                     finally:
                         log("svc-td", label)
 
-                ctx.add_teardown_callback(own_td)
+                if body not in ("crash0", "crash-oc"):
+                    ctx.add_teardown_callback(own_td)
                 try:
                     if body == "gate-end":
                         await env.gate(f"{label}:end")
@@ -145,7 +148,15 @@ class C08(E1Check):
                                 log("svc-cleanup-", label)
                     elif body == "forever":
                         await anyio.Event().wait()
-                    elif body == "crash":
+                    elif body == "crash-oc":
+                        try:
+                            await anyio.Event().wait()
+                        finally:
+                            exc = Crash(label)
+                            st["crashes"].append(exc)
+                            log("svc-crash", label)
+                            raise exc
+                    elif body in ("crash", "crash0"):
                         await env.gate(f"{label}:crash")
                         exc = Crash(label)
                         st["crashes"].append(exc)
@@ -180,7 +191,7 @@ class C08(E1Check):
 
                 def ta() -> Any:  # type: ignore[misc]
                     return _stop()  # a plain callable that returns an awaitable
-            elif action in ("obj", "partial", "method"):
+            elif action in ("obj", "partial", "method", "partial-obj"):
                 class Stopper:
                     def __call__(self) -> None:
                         log("action", label)
@@ -192,7 +203,8 @@ class C08(E1Check):
 
                 import functools
 
-                ta = Stopper() if action == "obj" else functools.partial(Stopper().stop_it, 1) if action == "partial" else Stopper().stop_it
+                ta = (Stopper() if action == "obj" else functools.partial(Stopper().stop_it, 1) if action == "partial"
+                      else functools.partial(Stopper()) if action == "partial-obj" else Stopper().stop_it)
             elif action == "sync-raise":
                 def ta() -> None:  # type: ignore[misc]
                     log("action", label)
@@ -329,6 +341,14 @@ class C08(E1Check):
             out = st.get("exc")
             if out is None or not any(x is exc for x in leaves(out) for exc in st["crashes"]):
                 fail("swallowed", f"service task(s) raised {st['crashes']!r} but the root block ended with {out!r}")
+            # every exception that actually escaped a service task comes out (a second task that was overtaken by the cancellation
+            # never raised and is not in the list)
+            # (when a crashed task's OWN context has an asynchronous teardown that is cancelled by the shutdown, the teardown's exception
+            # group replaces the crash by design - only tasks without such a teardown are held to this)
+            plain = all(item.split(":")[2] in ("crash0", "crash-oc") for item in seq if item.startswith("S:") and item.split(":")[2].startswith("crash"))
+            missing = [exc for exc in st["crashes"] if out is None or not any(x is exc for x in leaves(out))]
+            if plain and missing and len(missing) < len(st["crashes"]):
+                fail("swallowed", f"service tasks raised {st['crashes']!r}; {missing!r} vanished from what the root block raised: {out!r}")
         if crashed:
             return
         if st.get("exc") is not None and not any("raise" in x or "base" in x or x.startswith("TX") for x in seq):
@@ -381,6 +401,8 @@ class C08(E1Check):
                 fail("snapshot", f"service task {lbl} saw resources added to the owner after it had been started")
             end = next((j for j, ev in enumerate(tr) if ev[0] == "svc-" and ev[1] == lbl), None)
             tdx = next((j for j, ev in enumerate(tr) if ev[0] == "svc-td" and ev[1] == lbl), None)
+            if body in ("crash0", "crash-oc"):
+                tdx = end  # (its own context has no teardown callback)
             if end is None or tdx is None:
                 fail("still-running", f"service task {lbl} never finished (body end {end}, own teardown {tdx})")
                 continue
